@@ -407,3 +407,15 @@ func Short(b []byte) string {
 	}
 	return hex.EncodeToString(b[:48]) + fmt.Sprintf("…(%d bytes)", len(b))
 }
+
+// GuardLite is Guard without the stack capture (cheap when panics are the
+// normal way of rejecting, as in cbor.Deterministic).
+func GuardLite(f func()) (panicked bool, val any) {
+	defer func() {
+		if v := recover(); v != nil {
+			panicked, val = true, v
+		}
+	}()
+	f()
+	return
+}
